@@ -75,6 +75,9 @@ ASSUMPTIONS = [
     "of the worker process to it (or its sub-directory) for the duration of the call and restores it; all spellings of "
     "PATH_FORMS denote the same file <dir>/sub/m.<fmt> (os / filesystem trusted); worker processes run many cases one "
     "after the other, so process-wide state kept by the library is exercised across cases too (paths never repeat)",
+    "a failing load in a seq / rewritten-file case is classified 'stale-load' when a byte copy of the file (shutil.copyfile) at a "
+    "path never used before loads to a different content than the original path did; otherwise it keeps the signature of a "
+    "single save + load",
 ]
 BUDGET_S = {"quick": 100, "thorough": 1500}
 CHUNK = 100
@@ -510,19 +513,23 @@ def run_hand(recipe, r, tmp, tag="", seen=None):
         r.check("C07.handwritten", False, FN_LOAD, "%sassets listed as %s (.%s): loading raised %s: %s" % (tag, order, fmt, L.exc_name(e), str(e)[:100]),
                 "%s%s:raised" % (tag, shape0))
         return want
-    if seen is not None:
-        # the file was rewritten: what is loaded now must not be what the file said before
-        prev = seen.get("view")
-        seen["view"] = v1
-        if prev is not None and tag and prev == v1 and not same_described(want, prev):
-            r.check("C07.handwritten", False, FN_FILE["json" if js else "yaml"],
-                    "the file was rewritten with another description (.%s) and loaded again in the same process: the model "
-                    "of the first description came back (ids %s, name %r; described now: ids %s, name %r)"
-                    % (fmt, sorted(v1["assets"]), v1["name"], sorted(want["assets"]), want["name"]),
-                    "rewritten-file:%s:content-of-earlier-file" % ("json" if js else "yaml"))
-            return want
     sub = CaseResult()
     ok = compare_views(sub, want, v1, "%sassets listed as %s, .%s" % (tag, order, fmt))
+    if seen is not None:
+        # the file was rewritten: what is loaded must depend on what the file says now, not on what was loaded from this
+        # path before - the same bytes at a path never used before are loaded for comparison
+        prev = seen.get("view")
+        seen["view"] = v1
+        if not ok and prev is not None:
+            vc = load_copy(path, tmp, "hcopy." + fmt, lcf, base["lang"])
+            if vc is not None and vc != v1:
+                r.check("C07.handwritten", False, FN_FILE["json" if js else "yaml"],
+                        "the file was rewritten with another description (.%s) and loaded again in the same process: got ids %s, "
+                        "name %r%s; a copy of the file at a fresh path gives ids %s, name %r (described: ids %s, name %r)"
+                        % (fmt, sorted(v1["assets"]), v1["name"], " = the model loaded before the file was rewritten" if prev == v1 else "",
+                           sorted(vc["assets"]), vc["name"], sorted(want["assets"]), want["name"]),
+                        "rewritten-file:%s:stale-load" % ("json" if js else "yaml"))
+                return want
     names = [a["name"] for a in v1["assets"].values()]
     if ok and (len(set(names)) < len(names) or any(not n for n in names)):
         ok = False; sub.failures.append(("C07.assets", FN_LOAD, "shorthand assets got names %s" % names, "shorthand-names"))
@@ -532,10 +539,15 @@ def run_hand(recipe, r, tmp, tag="", seen=None):
     return want
 
 
-def same_described(want, view):
-    """does a loaded view agree with a description (names of shorthand entries are free)"""
-    sub = CaseResult()
-    return compare_views(sub, want, view, "")
+def load_copy(path, directory, name, lcf, lang):
+    """view of the model loaded from a copy of the file at a path that was never used before; None if that fails"""
+    from maltoolbox.model import Model
+    fresh = os.path.join(directory, name)
+    shutil.copyfile(path, fresh)
+    try:
+        return L.full_view(Model.load_from_file(fresh, lcf), lang)
+    except Exception:
+        return None
 
 
 FN_FILE = {"json": "maltoolbox.file_utils:load_dict_from_json_file", "yaml": "maltoolbox.file_utils:load_dict_from_yaml_file"}
@@ -596,11 +608,16 @@ def run_seq(recipe, r, tmp):
                 break
             sub = CaseResult()
             if not compare_views(sub, v, w, ctx):
-                earlier = [j for j in range(k) if views[j] == w and views[j] != v]
+                # does the result depend on the history of the path rather than on the bytes of the file? the same bytes at
+                # a path never used before are loaded for comparison
+                wc = load_copy(os.path.join(T, "sub", "m." + fmt), T, "fresh%d.%s" % (k, fmt), S.lcf, lang)
+                stale = wc is not None and wc != w
+                earlier = [j + 1 for j in range(k) if views[j] == w]
                 for (cl, fn, msg, sig) in sub.failures:
-                    if earlier:      # what came back is the content of an earlier save to this file
-                        r.check(cl, False, FN_FILE[kind], "the load returned the content saved at stage %d: %s" % (earlier[-1] + 1, msg),
-                                "seq:%s:content-of-earlier-save:%s" % (kind, spell))
+                    if stale:
+                        r.check(cl, False, FN_FILE[kind], "the load does not give what the file contains now (a copy of the file at a fresh "
+                                "path loads differently)%s: %s" % (" but the content saved at stage %d" % earlier[-1] if earlier else "", msg),
+                                "seq:%s:stale-load:%s" % (kind, spell))
                     else:            # same pattern as in a single save + load
                         r.check(cl, False, fn, msg, sig)
     finally:
